@@ -44,6 +44,9 @@ CHECKS = {
     "C15": dict(text="the single-quote wrapper `Shell` executed from MIR (core::fmt interpreted) on every valid UTF-8 string up to the bound: the output lexes under POSIX rules as exactly one word with the input as value; render_zsh/bash/fish/simple executed from MIR on candidate and completer lists whose user-originated strings are tracked atoms: no atom reaches a zsh/bash script unquoted, every line is a complete directive, every candidate / requested completer appears exactly once",
                 note="bounds: strings <=6 bytes quick / <=8 thorough; 0-2 candidates, 0-1 (thorough 0-2) completers; reference lexers in props/C15.py; sourcing in a real shell not attempted; three defects found and fixed (7d9d288, 7f18a65, 640d5de)",
                 tech=MIRSYM + " over symbolic bytes / tracked atoms", ref="DESIGN.md 4/C15"),
+    "C16": dict(text="kernels executed from MIR over symbolic bytes: roff escape() on fragment sequences (exact provenance: inserted bytes concrete, user bytes symbolic) - no user byte starts a line as a control character, every user backslash is escaped; html change_style for all 64 style pairs; Doc::render_html (with the Splitter) on 7 block templates - tags balanced, no user `<`/`>` reaches the output; extract_sections visits every command level exactly once",
+                note="bounds: <=3 fragments x <=2 user bytes quick (4 x 3 thorough); html text <=4 bytes (5 thorough); markdown output, whole-document assembly and per-section item lists are not covered; one defect found and fixed (roff control arguments)",
+                tech=MIRSYM + " over symbolic bytes, provenance obligations", ref="DESIGN.md 4/C16"),
     "C17": dict(text="the derive macro's expansion (part of the harness crate's MIR) and the documented hand written combinator equivalent are both executed from MIR: their Meta trees and Info are structurally equal (what help is rendered from), and on every symbolic argv within the bound run_subparser of both gives equal class, value and failure kind (one joint path, Z3)",
                 note="fixed corpus of 4 derive/manual pairs covering the derive rules of the property (definitions cannot be symbolic through a proc macro); bounds <=3 argv words quick / <=4 thorough; rendering cut",
                 tech=MIRSYM + ", relational query between two builders", ref="DESIGN.md 4/C17"),
